@@ -52,6 +52,7 @@ func loadOfCell(v ssa.Value) ssa.Value {
 }
 
 func runC18(c *Ctx) {
+	ruleFreshDecode(c, "R18f")
 	const rule = "R18a"
 	fn := c.MustFn(rule, pkgV2, "ProcessBulk")
 	if fn == nil {
